@@ -12,9 +12,27 @@ from .common import Instance
 TEMPLATE = os.path.join(facts.VERIF, "witness", "lib.rs.in")
 
 
+def _dir_size_over(path, limit):
+    total = 0
+    for root, dirs, files in os.walk(path):
+        for f in files:
+            try:
+                total += os.path.getsize(os.path.join(root, f))
+            except OSError:
+                pass
+            if total > limit:
+                return True
+    return False
+
+
 def run(report, config="all"):
     repo = facts.REPO
+    scratch = os.path.realpath(repo) != "/repo"
     d = os.path.join(facts.WORK, "witness-crate")
+    if scratch:
+        import tempfile
+        os.makedirs(facts.WORK, exist_ok=True)
+        d = tempfile.mkdtemp(prefix="witness-crate-", dir=facts.WORK)
     os.makedirs(os.path.join(d, "src"), exist_ok=True)
     with open(os.path.join(d, "Cargo.toml"), "w") as fh:
         fh.write('[package]\nname = "cbv-witness"\nversion = "0.0.0"\nedition = "2021"\n\n[workspace]\n\n'
@@ -23,10 +41,22 @@ def run(report, config="all"):
     lock = os.path.join(repo, "Cargo.lock")
     if os.path.exists(lock):
         shutil.copy(lock, os.path.join(d, "Cargo.lock"))
-    env = dict(os.environ, CARGO_NET_OFFLINE="true", CARGO_TARGET_DIR=os.path.join(facts.WORK, "witness-target"))
+    # the shared target directory is kept for /repo only (same path: cargo rebuilds in place); a scratch tree gets a
+    # throw-away one — every distinct dependency path adds ~0.5 GB of artifacts that would never be reused
+    tgt = os.path.join(facts.WORK, "witness-target")
+    if scratch:
+        tgt = tempfile.mkdtemp(prefix="witness-tgt-", dir=facts.WORK)
+    elif _dir_size_over(tgt, 3 << 30):
+        shutil.rmtree(tgt, ignore_errors=True)
+    env = dict(os.environ, CARGO_NET_OFFLINE="true", CARGO_TARGET_DIR=tgt)
     env.pop("RUSTC_WORKSPACE_WRAPPER", None)
-    p = subprocess.run(["cargo", "+nightly", "test", "--doc", "--offline"], cwd=d, env=env,
-                       stdout=subprocess.PIPE, stderr=subprocess.STDOUT, text=True)
+    try:
+        p = subprocess.run(["cargo", "+nightly", "test", "--doc", "--offline"], cwd=d, env=env,
+                           stdout=subprocess.PIPE, stderr=subprocess.STDOUT, text=True)
+    finally:
+        if scratch:
+            shutil.rmtree(tgt, ignore_errors=True)
+            shutil.rmtree(d, ignore_errors=True)
     out = p.stdout
     results = {}
     for m in re.finditer(r"^test src/lib\.rs - (\w+) \(line (\d+)\)( - compile fail| - compile)? \.\.\. (\w+)", out, re.M):
